@@ -252,7 +252,9 @@ def placement_matrix(max_depth=2):
     constructs = {
         'call_plain': ('g();', lambda st: True), 'call_you': ('@yy();', lambda st: st[0]), 'call_defeat': ('!ddd();', lambda st: st[1]),
         'try': ('try { } undo { }', lambda st: st[2]), 'preempt': ('preempt { }', lambda st: st[3]), 'break': ('break;', lambda st: st[5]), 'continue': ('continue;', lambda st: st[5]),
-        'spec': ('int q = g() ?? 1;', lambda st: st[4]), 'spec_you_operand': ('int q = @y() ?? 1;', lambda st: False), 'spec_defeat_operand': ('int q = 1 ?? !dd();', lambda st: False),
+        'spec': ('int q = g() ?? 1;', lambda st: st[4]), 'spec_statement': ('g() ?? 1;', lambda st: st[4]), 'spec_statement_literal': ('1 + 2 ?? g();', lambda st: st[4]),
+        'spec_in_for_init': ('for (g() ?? 1; c; ) { }', lambda st: st[4]), 'spec_in_for_step': ('for (; c; g() ?? 1) { }', lambda st: st[4]),
+        'spec_assigned': ('int q = 0; q = g() ?? 1;', lambda st: st[4]), 'spec_returned_value_position': ('write(1 + (g() ?? 2));', lambda st: st[4]), 'spec_you_operand': ('int q = @y() ?? 1;', lambda st: False), 'spec_defeat_operand': ('int q = 1 ?? !dd();', lambda st: False),
         'spec_nested_call_operand': ('int q = g() + @y() ?? 1;', lambda st: False), 'spec_in_call_arg': ('write(g() ?? 2);', lambda st: st[4]),
         'you_call_in_expr': ('int q = 1 + @y();', lambda st: st[0]), 'defeat_call_in_expr': ('int q = 1 + !dd();', lambda st: st[1]),
         'defeat_call_in_condition': ('if (!dd() > 0) { }', lambda st: st[1]), 'you_call_in_loop_condition': ('while (@y() > 5) { }', lambda st: st[0]),
